@@ -11,7 +11,8 @@ Engine: programs x histories (DESIGN 3/C16).
               exists; lazy: no set exists at the start, defaults are interned by the explored operations
               themselves).  Classes are built dynamically with the real metaclasses, namespace classes are
               associated before the render class is subclassed or used.  In these programs the classes
-              that do not own arguments own a DataNamespace.
+              that do not own arguments own a DataNamespace.  Extra programs: one class of the tree lists a
+              plain (non-render) mixin before / after its render base - the reference model ignores the mixin.
   histories = explicit-state breadth-first search over pools of real objects.  Alphabet: ``RenderArgs(cls,
               init?, *ns)`` for every class x init in {absent, None, every set in the pool} x every
               sequence of <= 2 pool namespaces; ``args.update(ns[, ns])``; ``args.update(cls, **fields)``
@@ -1031,11 +1032,24 @@ def ops_programs(tier, opts):
                 for seed in ("eager", "lazy"):
                     spec = Spec(pv, nfv, data, sub, seed)
                     progs.append(spec)
+    # programs in which one class has a plain (non-render) mixin before / after its render base
+    for n in range(1, min(maxn, 3 if quick else 4) + 1):
+        for pv, lab in labelled_programs(n, [0, 1]):
+            nf = [0] + list(lab[1:])
+            if not any(nf):
+                continue
+            data = [False] + [not nf[c] for c in range(1, n + 1)]
+            for c in range(1, n + 1):
+                for m in (1, 2):
+                    mix = [0] * (n + 1)
+                    mix[c] = m
+                    for seed in ("eager", "lazy"):
+                        progs.append(Spec(pv, nf, data, None, seed, mix))
     # de-duplicate variants that are isomorphic
     from ..c16_model import tree_canon
     seen, out = set(), []
     for s in progs:
-        k = (tree_canon(s.parents, [repr((s.nf[c], s.sub[c])) for c in range(len(s.parents))]), s.seed)
+        k = (tree_canon(s.parents, [repr((s.nf[c], s.sub[c], s.mix[c])) for c in range(len(s.parents))]), s.seed)
         if k not in seen:
             seen.add(k)
             out.append(s)
@@ -1048,6 +1062,8 @@ def depth_for(spec, tier, opts):
     n = len(spec.parents) - 1
     owners = sum(1 for x in spec.nf if x)
     extra = sum(1 for x in spec.nf if x == 2) + sum(spec.sub)
+    if any(spec.mix):
+        return 2 if tier == "quick" else 3
     if tier == "quick":
         return 2 if (n == 4 and owners >= 3) else 3
     return 4 if (owners + extra <= 1 or n <= 2) else 3
@@ -1070,6 +1086,22 @@ def structure_cases(tier):
             owns = [bool(x) for x in nf]
             with_menu = data == owns or data[1:] == [not x for x in owns[1:]]
             cases.append(dict(part="structure", spec=Spec(pv, nf, data, None, "lazy").to_json(), menu=with_menu))
+    # one class with a plain mixin first / last in its bases (class tables and RenderData only)
+    from ..c16_model import tree_canon
+    seen = set()
+    for n in range(1, 5):
+        for pv, lab in labelled_programs(n, [0, 1]):
+            nf = [0] + list(lab[1:])
+            data = [False] + [not x for x in nf[1:]]
+            for c in range(1, n + 1):
+                for m in (1, 2):
+                    mix = [0] * (n + 1)
+                    mix[c] = m
+                    k = tree_canon(pv, [repr((nf[i], data[i], mix[i])) for i in range(n + 1)])
+                    if k not in seen:
+                        seen.add(k)
+                        cases.append(dict(part="structure", menu=False,
+                                          spec=Spec(pv, nf, data, None, "lazy", mix).to_json()))
     return cases
 
 
@@ -1178,6 +1210,8 @@ def run(ctx):
     small = []
     if opts.get("part", "U") == "U":
         for s in specs:
+            if any(s.mix):
+                continue
             n = len(s.parents) - 1
             weight = sum(1 for x in s.nf if x) + sum(1 for x in s.nf if x == 2) + sum(s.sub)
             if tier == "quick":
@@ -1204,6 +1238,9 @@ def run(ctx):
     ctx.coverage.update(
         programs_ops=len(items), programs_structure=len(scases), programs_unmerged=n_unm,
         bounds=dict(tree_nodes_below_Renderable="1..4, every shape, up to isomorphism",
+                    plain_mixin="one class of the tree with a non-render mixin first / last in its bases: structure "
+                                "part every tree x args owner subset x position; operator search "
+                                + ("<= 3 classes, depth 2" if tier == "quick" else "<= 4 classes, depth 3"),
                     args_owner_subsets="all",
                     variants="one owner with 2 fields; one owner with a namespace subclass (thorough: every position "
                              "of that owner, except 4-class programs with >= 3 owners: first / last owner)",
